@@ -341,6 +341,14 @@ def main(tier, seed):
                 continue
             fi = (0, 1, 0, 1, 2, 3)[(i + j) % 6]
             step(state(l=l, m=m), op, fx[fi], "single/LM", reval=(rng.random() < 0.05))
+    # isotherms CREATED in percent / fraction keep whatever loading unit they were given (the constructor does not blank it):
+    # every material and loading step from such label states
+    for l in (("percent", "mmol"), ("fraction", "g"), ("percent", "cm3(STP)")):
+        for m in all_m():
+            for op in ops_m() + ops_l():
+                if not thorough and rng.random() > 0.12:
+                    continue
+                step(state(l=l, m=m), op, fx[(0, 1, 2, 3)[nsteps % 4]], "single/LM leftover unit", reval=(rng.random() < 0.05))
     run.set(single_steps=nsteps)
 
     # ---- full-product samples (independence of the factors), with convert()
